@@ -189,7 +189,7 @@ pub fn run_c11(args: &Args) -> i32 {
     let report = Report::new("C11", args.tier, args.seed, "fault_enumeration");
     silence_panics();
     let mut positions = search_positions(args.tier);
-    let mut cap = args.tier.pick(3000u64, 30000);
+    let mut cap = args.tier.pick(3000u64, 12000);
     if reduced() {
         positions = positions.into_iter().step_by(4).collect();
         cap = 1000;
@@ -478,7 +478,7 @@ pub fn run_c12(args: &Args) -> i32 {
     silence_panics();
     let mut positions = c12_positions(args.tier);
     if reduced() {
-        positions = positions.into_iter().step_by(5).collect();
+        positions = positions.into_iter().step_by(23).collect();
     }
     let mut with_mate = 0u64;
     let mut completed = 0u64;
